@@ -155,13 +155,23 @@ func c07Prop(t *testing.T, r *hx.Run, sub string) func(c c07Case) hx.Verdict {
 				fail("setup", "corebgp did not dial")
 				return
 			}
-			if c.Prelude == "ended-out" || c.Prelude == "ceased-out" {
+			if c.Prelude == "ended-out" || c.Prelude == "ceased-out" || c.Prelude == "ended-out-other-id" {
 				// an earlier session on the outbound FSM (the same object dials again
 				// afterwards), ended by the remote without damping
 				oc := conns["out"]
 				w.Net.Release(p.RemoteAddr())
 				w.Settle()
-				world.Handshake(w, p, oc, rhold, remoteID)
+				preID := remoteID
+				if c.Prelude == "ended-out-other-id" {
+					// in the earlier session the remote used another identifier, on the other side of
+					// the local one: only the OPENs of the connections that collide count
+					if lid := ipToU32(c.LocalID); remoteID > lid && lid > 1 {
+						preID = lid - 1
+					} else if remoteID <= lid && lid < 0xdffffffe {
+						preID = lid + 1
+					}
+				}
+				world.Handshake(w, p, oc, rhold, preID)
 				if w.Sessions(p.Remote) != 1 {
 					fail("setup", "prelude: the outbound session did not establish")
 					return
@@ -462,10 +472,10 @@ func TestC07(t *testing.T) {
 	}), c07Prop(t, r, "all_orders_x_configs"))
 
 	// every arrival order again, after an inbound connection that failed at TCP level in OpenSent
-	hx.Enum(r, t, "all_orders_after_aborted_inbound", int64(len(orders)*2*6), iter.Seq[c07Case](func(yield func(c07Case) bool) {
+	hx.Enum(r, t, "all_orders_after_aborted_inbound", int64(len(orders)*2*7), iter.Seq[c07Case](func(yield func(c07Case) bool) {
 		for _, ord := range orders {
 			for _, cfg := range []c07Cfg{c07Cfgs[0], c07Cfgs[2]} {
-				for _, pre := range []string{"aborted-in", "reset-in", "ceased-in-oc", "closed-in-oc", "ended-out", "ceased-out"} {
+				for _, pre := range []string{"aborted-in", "reset-in", "ceased-in-oc", "closed-in-oc", "ended-out", "ceased-out", "ended-out-other-id"} {
 					if !yield(c07Case{LocalID: cfg.lid, RemoteID: cfg.rid, LocalAS: cfg.las, RemoteAS: cfg.ras, Bursts: ord, Prelude: pre}) {
 						return
 					}
@@ -573,7 +583,7 @@ func TestC07(t *testing.T) {
 		for i := 0; i < n; i++ {
 			c.Delays = append(c.Delays, rapid.Int64Range(0, 3).Draw(rt, "delay"))
 		}
-		c.Prelude = pick(rt, "prelude", "", "", "aborted-in", "reset-in", "ceased-in-oc", "closed-in-oc", "ended-out", "ceased-out")
+		c.Prelude = pick(rt, "prelude", "", "", "aborted-in", "reset-in", "ceased-in-oc", "closed-in-oc", "ended-out", "ceased-out", "ended-out-other-id")
 		c.Hold0 = pick(rt, "hold0", "", "", "", "local", "remote")
 		if rapid.Bool().Draw(rt, "arm") {
 			c.ArmPoint = pick(rt, "armpoint", "fsm.transition", "fsm.transition", "peer.loop", "peer.collision")
